@@ -148,6 +148,19 @@ CHECKS["C18"] = dict(
     technique="bounded stand-in for the contract of merge_dicts/parse_v2/get: small-scope enumeration against the "
               "sidecar spec + symbolic-leaf execution of the real body (pyvc)")
 
+CHECKS["C16"] = dict(
+    category="proof",
+    text="The real __eq__/__lt__/__hash__ bodies are symbolically executed for pairs of objects of all class "
+         "combinations (and against plain strings) with symbolic texts and proved equal to the comparisons of the "
+         "compact strings (hash as an uninterpreted function of the text); the other comparisons are shown to be "
+         "str's own on the live classes. Copy/deepcopy/pickle: under the assumed reduce protocol the real __new__/"
+         "__getnewargs__/__deepcopy__ are executed for every class x operation on symbolic texts (valid or not): the "
+         "reconstruction call binds, never raises, and yields the same class and text.",
+    design_ref="DESIGN.md C16",
+    note="Thin: the copy/pickle protocol is an assumed contract (probed natively by each task's cross-check). "
+         "Comparison obligations are per length pair (bodies are length-independent).",
+    technique=_T)
+
 NOT_YET = {}
 
 ALL = [f"C{i:02d}" for i in range(1, 19)]
